@@ -303,6 +303,11 @@ def run(prop: str, tier: str) -> int:
             plain = (b"This program cannot be run in DOS mode. " * 14)[:520]
             arr = b",".join(b"%d" % (c ^ key[i % period]) for i, c in enumerate(plain))
             inputs.append(arr + b" -bxor $key")
+        # lengths that are not a multiple of the key length, and an array longer than any plausible work bound (4 KiB, 64 KiB pages)
+        for period, n in ((3, 701), (4, 802), (7, 1501), (4, 4500)):
+            key = rb(rng, period)
+            plain = (b"This program cannot be run in DOS mode. " * 120)[:n]
+            inputs.append(b",".join(b"%d" % (c ^ key[i % period]) for i, c in enumerate(plain)) + b" -bxor $key")
     for data in inputs:
         try:
             tree = md.scan(data)
